@@ -1,4 +1,4 @@
-//@unit U13 props=C03,C06,C13,C16 rlimit=150 renet wire codec Packet::{from_bytes, to_bytes, sequence} (renet/src/packet.rs)
+//@unit U13 props=C03,C06,C08,C13,C16 rlimit=150 renet wire codec Packet::{from_bytes, to_bytes, sequence} (renet/src/packet.rs)
 #![feature(allocator_api)]
 #![allow(unused_imports, dead_code, unused_variables, unused_mut)]
 use vstd::prelude::*;
